@@ -9,8 +9,8 @@ S=${VERIF_ST_DIR:-/tmp/st}
 if [ "$1" = "--clean" ]; then rm -rf "$S"; exit 0; fi
 PATCH=$(readlink -f "$1"); PROP=$2; shift 2
 mkdir -p "$S"
-rsync -a --delete --exclude target --exclude .git /repo/ "$S/repo/"
-rsync -a --delete --exclude target "${VERIF_HARNESS_SRC:-/verif/harness}/" "$S/harness/"
+rsync -a --no-times --checksum --delete --exclude target --exclude .git /repo/ "$S/repo/"
+rsync -a --no-times --checksum --delete --exclude target "${VERIF_HARNESS_SRC:-/verif/harness}/" "$S/harness/"
 sed -i "s#/repo/#$S/repo/#g" "$S/harness/Cargo.toml"
 rm -f "$S/harness/.cargo/config.toml"; printf '[net]\noffline = true\n' > "$S/harness/.cargo/config.toml"
 if [ "$PATCH" != "/dev/null" ]; then (cd "$S/repo" && patch -p1 --no-backup-if-mismatch < "$PATCH" >/dev/null); fi
